@@ -38,6 +38,19 @@ type breakerSubject struct {
 	hookBad   atomic.Int64
 }
 
+// jitterLogger makes every log call of the middleware take a little while and yield the processor: a decision that is
+// taken on one side of a log line and acted upon on the other gets a window in which other requests can overtake it.
+type jitterLogger struct{}
+
+func (jitterLogger) pause() {
+	runtime.Gosched()
+	time.Sleep(20 * time.Microsecond)
+}
+func (j jitterLogger) Debug(string, ...any) { j.pause() }
+func (j jitterLogger) Info(string, ...any)  { j.pause() }
+func (j jitterLogger) Warn(string, ...any)  { j.pause() }
+func (j jitterLogger) Error(string, ...any) { j.pause() }
+
 func newBreakerSubject(cfg M, next http.Handler) *breakerSubject {
 	s := &breakerSubject{tick: time.Duration(numOr(cfg, "tick_ms", 100)) * time.Millisecond, checked: "none"}
 	if us := numOr(cfg, "tick_us", 0); us > 0 { // sub-millisecond ticks: arrivals that are not on a millisecond boundary
@@ -93,7 +106,13 @@ func newBreakerSubject(cfg M, next http.Handler) *breakerSubject {
 		cbreaker.FallbackDuration(fbDur),
 		cbreaker.RecoveryDuration(time.Duration(num(cfg, "recovery"))*s.tick),
 		cbreaker.CheckPeriod(time.Duration(num(cfg, "check"))*s.tick),
-		cbreaker.Fallback(fbh), cbreaker.OnTripped(onTripped), cbreaker.OnStandby(&s.onStandby))
+		cbreaker.Fallback(fbh), cbreaker.OnTripped(onTripped), cbreaker.OnStandby(&s.onStandby),
+		func() cbreaker.Option {
+			if boolOr(cfg, "jitterlog", false) {
+				return cbreaker.Logger(jitterLogger{})
+			}
+			return cbreaker.Verbose(false)
+		}())
 	if err != nil {
 		fatal("cbreaker.New(%q): %v", str(cfg, "expr"), err)
 	}
@@ -250,7 +269,7 @@ func stressBreaker(cfg M, tr *Trace, seed int64) {
 			w.WriteHeader(502)
 		}
 	})
-	c := M{"tick_ms": 100, "expr": "NetworkErrorRatio() > 0.5", "fallback": 20, "recovery": 40, "check": 1}
+	c := M{"tick_ms": 100, "expr": "NetworkErrorRatio() > 0.5", "fallback": 20, "recovery": 40, "check": 1, "jitterlog": true}
 	s := newBreakerSubject(c, next)
 	tr.Emit(M{"e": "Reset", "scn": "stress", "cfg": M{"tps": 10, "fallback": 20, "recovery": 40, "check": 1, "win": 10,
 		"ast": M{"k": "neterr", "op": ">", "num": 1, "den": 2}}})
